@@ -19,6 +19,96 @@ def first_record(line):
     return line.split(" ; ")[0]
 
 
+def directed(ctx, rnd):
+    """field records for combinations the random generator reaches rarely or never: (fields, member data)
+    symlinks with several '|' (every name source), level-2 headers with the padding byte(s) Unix LHA appends, level-0
+    areas that just miss / just meet the Unix and OS-9 forms, compressed sizes in the upper half of the 32-bit range (the data
+    is then simply cut short), names of several hundred / thousand bytes, the -lh7- / LHARK and Amiga -lh0- rules with their
+    near misses."""
+    import struct
+    out = []
+    tok = [b"a", b"B", b"|", b"|", b"/", b"\\", b".", b"..", b"\xff", b"t", b"X"]
+    link = struct.pack("<H", 0o120777)
+
+    def lname(minbars):
+        while True:
+            s = b"".join(rnd.choice(tok) for _ in range(rnd.randrange(1, 10)))
+            if s.count(b"|") >= minbars and b"\0" not in s:
+                return s
+    oss = [0, ord('M'), ord('U'), ord('2'), ord('K'), ord('a'), ord(' '), ord('A')]
+    reps = 1 if ctx.quick else 8
+    for _ in range(14 * reps):
+        base = {"method": b"-lhd-", "clen": 0, "length": 0, "crc": 0, "attr": 0x20, "os": rnd.choice(oss)}
+        nb = rnd.choice([1, 2, 2, 3])
+        out.append((dict(base, level=2, time=5, exts=[(0x50, link), (1, lname(nb))]), b""))
+        out.append((dict(base, level=3, time=5, exts=[(1, lname(nb)), (0x50, link)]), b""))
+        out.append((dict(base, level=2, time=5, exts=[(2, lname(rnd.choice([0, 1])).replace(b"/", b"\xff") + b"\xff"), (0x50, link), (1, lname(rnd.choice([0, 1, 2])))]), b""))
+        out.append((dict(base, level=1, time=0x21, name=lname(nb), exts=[(0x50, link)]), b""))
+        out.append((dict(base, level=1, time=0x21, name=lname(0), exts=[(0x50, link), (1, lname(nb))]), b""))
+        area = bytes([rnd.choice([ord('U'), ord('K')]), 0]) + struct.pack("<I", rnd.getrandbits(32)) + link + struct.pack("<HH", 7, 8)
+        out.append((dict(base, level=0, time=0x21, name=lname(nb), area=area), b""))
+    # level 2 with padding
+    def accepted(lv):
+        for _ in range(200):
+            f = hdrgen.rfields(rnd, lv=lv)
+            if lb.normalise(f) is not None:
+                break
+        return f
+    for _ in range(60 * reps):
+        f = accepted(2)
+        f["pad"] = bytes(rnd.choice([1, 1, 2, 3]))
+        out.append((f, None))
+    # level-0 areas around the two recognised forms
+    for _ in range(60 * reps):
+        f = hdrgen.rfields(rnd, lv=0)
+        f["name"] = f["name"][:40] or b"n"
+        k = rnd.randrange(6)
+        if k < 3:
+            n = rnd.choice([10, 11, 12, 13, 14, 15, 16, 17, 20])
+            a = bytearray(rnd.randrange(256) for _ in range(n))
+            a[0] = rnd.choice([ord('U'), ord('K')])
+            a[1] = 0 if k < 2 else rnd.choice([1, 0x80, 0xff, rnd.randrange(1, 256)])
+        else:
+            n = rnd.choice([18, 20, 21, 22, 23, 24, 26])
+            a = bytearray(rnd.randrange(256) for _ in range(n))
+            a[0] = ord('9')
+            a[9] = 0xcc if k < 5 else rnd.randrange(256)
+            if n > 18 and rnd.random() < 0.7:
+                a[17], a[18] = a[1], a[2]
+            if n > 18 and rnd.random() < 0.3:
+                a[rnd.choice([17, 18])] ^= 1 << rnd.randrange(8)
+        f["area"] = bytes(a)
+        out.append((f, None))
+    # compressed sizes in the upper half of the range; the archive ends after 20 bytes of data
+    for lv in (0, 1, 2, 3):
+        for big in [2 ** 31 - 1, 2 ** 31, 2 ** 31 + 5, 0xfffffe00 + rnd.randrange(200), 2 ** 32 - 1 - (400 if lv == 1 else 0)]:
+            f = accepted(lv)
+            f["clen"] = min(big, 2 ** 32 - 401) if lv == 1 else big      # level 1: size + extended headers must fit the field
+            out.append((f, bytes(rnd.randrange(256) for _ in range(20))))
+    # long names and long unknown headers
+    ch = b"abcdefghijklmnopqrstuvwxyzABCDEFGHIJKLMNOPQRSTUVWXYZ0123456789._- "
+    for lv, n in [(2, 255), (2, 256), (2, 257), (3, 300), (2, 1000), (3, 4095), (2, 20000), (3, 66000), (1, 600), (1, 40000)]:
+        nm = bytes(rnd.choice(ch) for _ in range(n))
+        pth = b"\xff".join(nm[i:i + 40] for i in range(0, min(n, 2000), 40)) + b"\xff"
+        f = {"level": lv, "method": b"-lh5-", "clen": 3, "length": 9, "crc": 77, "attr": 0x20, "os": rnd.choice([ord('U'), ord('M')]),
+             "time": 0x21 if lv == 1 else 12345, "exts": [(1, nm), (2, pth), (0x53, nm[:n // 2]), (0x7e, nm)][:rnd.choice([2, 3, 4])] + [(0, b"\0\0")]}
+        if lv == 1:
+            f["name"] = b"short"
+        out.append((f, None))
+    # -lh7- / LHARK and the Amiga directory rule, with near misses
+    for lv in (0, 1, 2, 3):
+        for o in (ord(' '), ord('M'), ord('A'), ord('a')):
+            for m in (b"-lh7-", b"-lh0-", b"-lh6-"):
+                for ln in (0, 1):
+                    f = {"level": lv, "method": m, "clen": 0, "length": ln, "crc": 0, "attr": 0x20, "os": o, "time": 0x21 if lv < 2 else 99}
+                    if lv < 2:
+                        f["name"] = rnd.choice([b"", b"D\\", b"D\\F", b"f"])
+                    if lv > 0:
+                        f["exts"] = rnd.choice([[], [(2, b"D\xff")], [(2, b"d\xff"), (1, b"F")], [(1, b"F")]])
+                    out.append((f, None))
+    return out
+
+
 def run(ctx):
     rnd = random.Random(ctx.seed * 7368787 + 5)
     cb = CBuild(PID)
@@ -28,10 +118,21 @@ def run(ctx):
         cexe = build(cb)
         n = 1200 if ctx.quick else 30000
         lines, meta = [], []
-        for i in range(n):
-            f = hdrgen.rfields(rnd, lv=i % 4)
-            hdr, data = hdrgen.member(f)
-            arch = hdr + data + b"\0"
+        extra = directed(ctx, random.Random(ctx.seed * 611953 + 55))
+        for i in range(n + len(extra)):
+            if i < n:
+                f = hdrgen.rfields(rnd, lv=i % 4)
+                hdr, data = hdrgen.member(f)
+                arch = hdr + data + b"\0"
+            else:
+                f, data = extra[i - n]
+                if data is None:
+                    hdr, data = hdrgen.member(f)
+                    arch = hdr + data + b"\0"
+                else:
+                    hdr = lb.build_header(f)
+                    arch = hdr + data
+                dist["directed"] += 1
             exp = lb.normalise(f)
             kind = rnd.choice(["file", "pipe", "cbskip", "cbnoskip"])
             lines.append("hdr %s %s" % (kind, arch.hex()))
@@ -68,7 +169,10 @@ def run(ctx):
                "rule": "generated field records (levels 0-3 in rotation; names over a hostile alphabet incl. NUL, '\\\\', 0xFF, '|'; "
                        "sizes/times at range ends; every OS byte; random subsets/orders/duplicates of extended headers "
                        "00,01,02,41,50,51,52,53,54,CC and unknown types; level-0 Unix/OS-9 areas) encoded by the reference encoder; "
-                       "expected = reference normalisation; non-trivial = distinct case that the reference says must be accepted",
+                       "expected = reference normalisation; non-trivial = distinct case that the reference says must be accepted; plus directed records "
+                       "(directed()): symlinks with 1-3 '|' through every name source, level-2 headers with padding bytes, level-0 areas around "
+                       "the Unix/OS-9 forms (every nearby length, second byte / 0xCC / repeated bytes right and wrong), compressed sizes >= 2^31 "
+                       "(data cut short), names and unknown headers of 255..66000 bytes, the -lh7-/LHARK and Amiga -lh0- rules with near misses",
                "distribution": dict(dist), "samples": [l[:200] for l in lines[:3]]}
         return {"violations": viol[:10], "mismatches": mism[:10], "coverage": cov,
                 "search_note": "direct oracle: reference normalisation vs C output for every generated header"}
